@@ -14,7 +14,10 @@ RECV_VAL = {"self": ["o", 900], "cls": ["o", -1]}
 
 def exc_tag(rng, base_only=None):
     cls = rng.choice([0, 0, 0, 1, 2, 3, 4]) if base_only is None else (rng.choice([1, 2, 3, 4]) if base_only else 0)
-    return 8 * rng.randrange(1, 40) + cls
+    k = rng.randrange(1, 40)
+    if cls == 0 and rng.random() < 0.5:
+        k = 3 * rng.randrange(1, 13)        # every third ordinary exception is a TypeError (world.exc_class)
+    return 8 * k + cls
 
 
 def gen_sig(rng, kind):
@@ -272,6 +275,14 @@ class Gen:
             rb = self.cond_result("pass" if depth in ("pre_ok", "all_ok") else "any")
             ra = self.cond_result("pass" if depth == "all_ok" and rng.random() < 0.7 else "any")
             user["cond"][str(c["cid"])] = [rb, ra]
+        # a condition that hands back an awaitable and fails *while awaited*, with an ordinary TypeError
+        # (what `None > 0` raises inside an async helper)
+        if is_async:
+            for lv in levels:
+                for c in lv["pre"] + lv["post"]:
+                    if c["kind"] in ("awaitable", "corofn") and rng.random() < 0.3:
+                        e = ["raise", 8 * 3 * rng.randrange(1, 13)]
+                        user["cond"][str(c["cid"])] = [e, e]
         # body
         r = rng.random()
         if kind in ("init",):
